@@ -1,7 +1,7 @@
 (* C20 - B-tree zone flags, delegation index and bounds are a function of zone content. *)
 From DV Require Import Base.Prelude Model.NameM Model.BTZoneM.
 From DV Require Import Proofs.BTZoneOrder Proofs.BTZoneList Proofs.BTZoneSpec Proofs.BTZoneInv Proofs.BTZoneMain
-     Proofs.BTZoneBounds3 Proofs.BTZoneValid.
+     Proofs.BTZoneBounds3 Proofs.BTZoneValid Proofs.BTZoneContent.
 Open Scope Z_scope.
 
 (* After any history of transactions (replacement loads, adds, replaces, deletes by name, type or
@@ -14,6 +14,17 @@ Theorem incremental_eq_spec : forall c h,
     map ekey (map fst (z_delegs z)) = map ekey (delegations_of c (z_nodes z)).
 Proof. exact incremental_eq_spec_main. Qed.
 Print Assumptions incremental_eq_spec.
+
+(* Load-order independence, stated directly: two histories (for instance two permutations of the
+   same records, or a load and a sequence of updates) that end with the same names carrying the
+   same rdatasets end with the same flags on every node and the same delegation index. *)
+Theorem derived_state_function_of_content : forall c h1 h2,
+    history_ok c h1 -> history_ok c h2 ->
+    same_content (z_nodes (exec c h1)) (z_nodes (exec c h2)) ->
+    Forall2 (fun e1 e2 => nflags (snd e1) = nflags (snd e2)) (z_nodes (exec c h1)) (z_nodes (exec c h2)) /\
+    map ekey (map fst (z_delegs (exec c h1))) = map ekey (map fst (z_delegs (exec c h2))).
+Proof. exact derived_state_function_of_content_main. Qed.
+Print Assumptions derived_state_function_of_content.
 
 (* Names iterate in strictly increasing canonical order (NameM.order is dns.name's fullcompare). *)
 Theorem iteration_canonical : forall c h,
@@ -95,3 +106,17 @@ Proof. vm_compute. split; reflexivity. Qed.
 
 Example ex_wf : wf_labels [lb; [101;120]; []] /\ wf_labels [lq; lz; la; lb].
 Proof. split; intros l Hl; cbn in Hl; intuition (subst; discriminate). Qed.
+
+(* the same records loaded outer cut first, in three transactions, then the same deletion *)
+Definition ex_h2 : list txn :=
+  [ mkTxn true true [TAdd [] 2 [1]; TAdd [lb] 2 [1]];
+    mkTxn false true [TAdd [lb] 1 [7]; TAdd [lz; la; lb] 1 [1]; TAdd [la; lb] 2 [1]];
+    mkTxn false true [TAdd [lq; lz; la; lb] 2 [2]];
+    mkTxn false false [TDelName []];
+    mkTxn false true [TDelType [lb] 2] ].
+
+Example ex_history2_ok : history_ok ex_cfg ex_h2.
+Proof. repeat constructor; name_ok_tac. Qed.
+
+Example ex_same_content : same_content (z_nodes (exec ex_cfg ex_h)) (z_nodes (exec ex_cfg ex_h2)).
+Proof. vm_compute. repeat constructor. Qed.
